@@ -35,11 +35,13 @@ def run(tier, seed):
     # the rule is independent of every other field of the authenticator data: flag bytes with/without UV, BE, BS, ED, reserved bits
     FLAGS = [0x05, 0x01, 0x0D, 0x1D, 0x09, 0x85, 0x27, 0x19]
 
-    def present(s_stored, c, kind="ES256-P256", form="record", flags=0x05):
+    def present(s_stored, c, kind="ES256-P256", form="record", flags=0x05, ruv=None):
         pol, a = assertion(c, kind, flags)
-        pol = impl.AuthPolicy(pol.challenge, pol.rp_id, pol.origin, pol.pubkey, s_stored, pol.require_uv)
+        if ruv is None:
+            ruv = bool(flags & 0x04) and (s_stored + c) % 2 == 1          # the counter rule does not depend on the user-verification policy
+        pol = impl.AuthPolicy(pol.challenge, pol.rp_id, pol.origin, pol.pubkey, s_stored, ruv)
         should = (c > s_stored) or (c == 0 and s_stored == 0)
-        il, ml = B.run_case(pol, a, form, "accept" if should else "reject", f"counter s={s_stored} c={c}" + ("" if flags == 0x05 else f" flags={flags:#x}"))
+        il, ml = B.run_case(pol, a, form, "accept" if should else "reject", f"counter s={s_stored} c={c}" + ("" if flags == 0x05 else f" flags={flags:#x}") + (" uv-required" if ruv else ""))
         if il.startswith("OK"):
             new = fw.rd_i(il.split()[2])
             if new != c:
@@ -57,6 +59,8 @@ def run(tier, seed):
     for fl in FLAGS[1:]:
         for (s, c) in [(0, 0), (5, 5), (5, 4), (4, 5), (B31, 1), (B32 - 1, 0), (0, B32 - 1)]:
             present(s, c, flags=fl)
+            if fl & 0x04:
+                present(s, c, flags=fl, ruv=True)
     chk.sample({"grid": GRID, "example_pair": pairs[8]})
     # 2. histories
     ctrs = [0, 1, 1, 2, B31, B32 - 1]          # six pre-signed assertions (one counter repeated: two distinct assertions)
@@ -77,7 +81,7 @@ def run(tier, seed):
         trace = []
         for idx in h:
             c = ctrs[idx]
-            ok, new = present(stored, c, flags=hflags[idx])
+            ok, new = present(stored, c, flags=hflags[idx], ruv=(bool(hflags[idx] & 0x04) and len(h) % 2 == 0))
             trace.append((idx, c, ok, new))
             if ok:
                 if new < stored:
